@@ -12,8 +12,10 @@ import tempfile
 import numpy as np
 
 from vlib import enginelab as el
-from vlib.lz import gs, jax, tree_equal_bits, silence
+from vlib.lz import gs, jax, jnp, tree_equal_bits, silence
 from vlib.runner import Sub, require, VERIF_DIR
+
+from liesel.goose.epoch import EpochConfig, EpochType
 
 PROPERTY = "C19"
 RULE = ("cases = engine specs with per-kernel error-code tables (patterns none / warm-up only / posterior only / one chain only / dense; "
@@ -206,7 +208,73 @@ def oracle(spec):
     return {"nt": bool(nt), "cls": cls}
 
 
+# ------------------------------------------------------------------------------ value types in the round-trips
+def gen_types():
+    from hypothesis import strategies as st
+
+    return st.fixed_dictionaries({"chains": st.integers(1, 3), "post": st.integers(2, 6), "thin": st.sampled_from([1, 1, 2]), "warm": st.integers(0, 3),
+                                  "big": st.sampled_from([20_000_001, 16_777_217, 2_000_000_003, 7]), "seed": st.integers(0, 1000)})
+
+
+def oracle_types(c):
+    """stored samples of several value types (float32 fractions, int32 beyond 2^24, uint32 beyond 2^31, booleans) survive pickling and the ArviZ
+    conversion exactly: values and integer-ness ("preserves all stored samples exactly")"""
+    import os
+    import tempfile
+
+    from liesel.experimental.arviz import to_arviz_inference_data
+
+    C = c["chains"]
+    model = gs.DictInterface(lambda s: -0.5 * s["x"] ** 2)
+    big = min(c["big"], 2**31 - 4)
+    st0 = {"x": jnp.float32(0.1), "cnt": jnp.int32(big), "word": jnp.uint32(3_000_000_001), "flag": jnp.asarray(True)}
+
+    def step(key, s):
+        return {"x": s["x"] + jnp.float32(1.0) / 3, "cnt": s["cnt"] + 1, "word": s["word"] + jnp.uint32(2), "flag": ~s["flag"]}
+
+    b = gs.EngineBuilder(seed=c["seed"], num_chains=C)
+    b.show_progress = False
+    eps = [EpochConfig(EpochType.INITIAL_VALUES, 1, 1, None)] + ([EpochConfig(EpochType.BURNIN, c["warm"], 1, None)] if c["warm"] else [])
+    eps.append(EpochConfig(EpochType.POSTERIOR, c["post"] * c["thin"], c["thin"], None))
+    b.set_epochs(eps)
+    b.set_model(model)
+    b.set_initial_values(st0)
+    b.add_kernel(gs.GibbsKernel(["x", "cnt", "word", "flag"], step))
+    eng = b.build()
+    eng.sample_all_epochs()
+    res = eng.get_results()
+    det = f"{c}"
+    post = res.get_posterior_samples()
+    # independent expectation of the stored posterior draws
+    t0 = c["warm"]
+    its = np.array([t0 + (k + 1) * c["thin"] for k in range(c["post"])])         # a posterior draw is stored after within-epoch iterations th, 2 th, ...
+    exp_cnt = (big + its).astype(np.int64)
+    got_cnt = np.asarray(post["cnt"])
+    require(got_cnt.shape == (C, c["post"]) and bool(np.all(got_cnt.astype(np.int64) == exp_cnt[None, :])), "stored-samples-not-the-iteration-states", f"cnt {got_cnt[0].tolist()} expected {exp_cnt.tolist()}; {det}")
+    d = os.path.join(os.environ.get("VERIF_DIR", "."), ".work", "c19")
+    os.makedirs(d, exist_ok=True)
+    fd, path = tempfile.mkstemp(suffix=".pkl", dir=d)
+    os.close(fd)
+    try:
+        res.pkl_save(path)
+        back = gs.SamplingResults.pkl_load(path)
+    finally:
+        os.unlink(path)
+    require(tree_equal_bits(back.get_samples(), res.get_samples()) and tree_equal_bits(back.get_posterior_samples(), post), "pickle:typed-positions", det)
+    for include_warmup in ([False, True] if c["warm"] else [False]):
+        with silence():
+            idata = to_arviz_inference_data(res, include_warmup=include_warmup)
+        for k in ("x", "cnt", "word", "flag"):
+            arr = np.asarray(idata.posterior[k].values)
+            src = np.asarray(post[k])
+            same = arr.shape == src.shape and bool(np.all(arr.astype(np.float64) == src.astype(np.float64)))
+            require(same, "arviz:values-changed-by-conversion:" + str(src.dtype), lambda: f"key {k}: stored {src[0][:3].tolist()} converted {arr[0][:3].tolist()} (dtype {arr.dtype}); {det}")
+    return {"nt": big > 2**24, "cls": [f"chains{C}", "warm" if c["warm"] else "nowarm", f"thin{c['thin']}"]}
+
+
 SUBS = [
     Sub("bookkeeping", oracle, gen=gen, n={"quick": 48, "thorough": 1200}, shrink_calls=30,
         what="error log / summary / error_df / sample_info vs generated error tables; pickle and ArviZ round-trips"),
+    Sub("value_types", oracle_types, gen=gen_types, n={"quick": 16, "thorough": 200}, shrink={"quick": False, "thorough": False}, min_per_shard=2,
+        what="int32 > 2^24, uint32 > 2^31, booleans and float32 fractions survive pickle and ArviZ conversion exactly"),
 ]
